@@ -47,15 +47,54 @@ def isWsLike (t : Tok) : Bool :=
 /-- `remove_carriage_returns_from_token_list` -/
 def removeCr (l : List Tok) : List Tok := l.filter (fun t => !isCr t)
 
+/-- `is_followed_by_preprocessor(iToken, lTokens)` (remove_carriage_return_after_token.py) on the tokens
+    BEHIND position `iToken`: the first token that is not `parser.whitespace` is a preprocessor line -/
+def nextIsPreproc : List Tok → Bool
+  | [] => false
+  | t :: r => if isWs t then nextIsPreproc r else t.kind == .preproc
+
 /-- `remove_carriage_returns_before_first_comment` (remove_carriage_return_after_token.py, after the
-    repair 7d29fc3): carriage returns are dropped only up to the first `parser.comment` instance —
-    a line break that follows a comment ends that comment and stays -/
+    repairs 7d29fc3 and "keeps a preprocessor line on a line of its own"): carriage returns are
+    dropped only up to the first `parser.comment` instance — a line break that follows a comment ends
+    that comment and stays — and only up to the first line break that stands in front of a
+    preprocessor line: that one stays, and so does everything behind it -/
 def removeCrBeforeComment : List Tok → List Tok
   | [] => []
   | t :: r =>
     if isCommentInst t then t :: r
-    else if isCr t then removeCrBeforeComment r
+    else if isCr t then (if nextIsPreproc r then t :: r else removeCrBeforeComment r)
     else t :: removeCrBeforeComment r
+
+/-- **a preprocessor line is a line of its own**: scanning a token list, `fresh` = nothing but
+    whitespace since the last line break, `code` = something else stands on the line, `afterPp` = a
+    preprocessor token stands on the line -/
+inductive PpSt where
+  | fresh | code | afterPp
+  deriving Repr, DecidableEq
+
+/-- a preprocessor token is admitted only on a fresh line, and nothing but whitespace may follow it
+    before the next line break -/
+def ppStep (s : PpSt) (t : Tok) : Option PpSt :=
+  if isCr t then some .fresh
+  else if isWs t then some s
+  else if t.kind == .preproc then (if s == .fresh then some .afterPp else none)
+  else (if s == .afterPp then none else some .code)
+
+def ppGo : PpSt → List Tok → Bool
+  | _, [] => true
+  | s, t :: r =>
+    match ppStep s t with
+    | none => false
+    | some s' => ppGo s' r
+
+/-- every preprocessor token of the list stands alone on its line (leading / trailing whitespace aside) -/
+def preprocOwnLine (l : List Tok) : Bool := ppGo .fresh l
+
+/-- the first token is neither whitespace, a line break nor a preprocessor line (the regions of
+    remove_carriage_return_after_token start with the keyword the rule is about) -/
+def headSolid : List Tok → Bool
+  | [] => false
+  | t :: _ => !isCr t && !isWs t && !(t.kind == .preproc)
 
 /-- `remove_consecutive_whitespace_tokens`: a whitespace token whose predecessor IN THE INPUT is
     whitespace is dropped -/
